@@ -55,7 +55,7 @@ theorem decode_encode_unbounded (t : Ty) (vs : List PyVal) (hb : t.isBits = none
     obtain ⟨a, h1, h2, h3, _⟩ := full t x (h x hx)
     exact ⟨a, h1, (h3 hw).1, h2⟩) hempty
   refine ⟨bs, ?_, ?_⟩
-  · simp [encode, PyVal.len?, PyVal.seq?, hb, he]
+  · simp [encode, PyVal.len?, PyVal.seq?, hb, encodeList_argOf_canon t vs h, he]
   · simp [decode, hd (bs.length + 1) (Nat.lt_succ_self _), hb]
 
 /-- the original statement of `decode_encode_unbounded`, for a non-empty list -/
@@ -75,7 +75,7 @@ theorem decode_encode_prefixed (k : IntK) (t : Ty) (vs : List PyVal) (hb : t.isB
     (fun x hx a ha => encode_ne_nil t x (h x hx) hw a ha) bs he
   obtain ⟨_, hlt⟩ := packInt_nat k vs.length hk hn
   refine ⟨bs, ?_, ?_⟩
-  · simp [encode, PyVal.len?, PyVal.seq?, hb, he]
+  · simp [encode, PyVal.len?, PyVal.seq?, hb, encodeList_argOf_canon t vs h, he]
   · intro rest
     have hnot : ¬ (vs.length > (bs ++ rest).length + 65536) := by simp; omega
     simp only [decode, List.append_assoc, decodeIntNat_append k vs.length (bs ++ rest) hlt, hnot,
